@@ -7,7 +7,7 @@ CASE <name> <property> <variant>
              (ocaml/ll_driver.ml, cfg_of): base | nophy | desired | async | enc | nocb
 One harness binary per variant (a link_layer<> TU takes ~30 s with the sanitizers), compiled in parallel.
 """
-import hashlib, os
+import hashlib, os, re
 from vlib.core import Standard, Case
 
 VARIANTS = ["base", "nophy", "desired", "async", "enc", "nocb"]
@@ -81,6 +81,11 @@ class LLCheck(Standard):
         "advertising is the minimal single-type advertiser (timing and data: C24, C14); white list: none",
         "real time is the radio's: the link layer only sees the sequence of callbacks; time is what it hands to schedule_connection_event",
     ]
+
+    def canon(self, line):
+        # which advertising channel is used (and whether a restart begins on 37) is property C24's; the LL checks must not
+        # depend on it (fix/C24-disabled-adv-channel changes it)
+        return re.sub(r"\badv:\d+", "adv:0", line)
 
     def variants(self, ctx):
         return self.variants_thorough if ctx.thorough else self.variants_quick
